@@ -10,6 +10,8 @@ import vlib
 
 PROP = 'C11'
 HDR_DMA = 'From Coq Require Import List NArith.\nImport ListNotations.\nFrom VCp Require Import Dma.\nOpen Scope N_scope.\n'
+HDR_SEQ = ('From Coq Require Import List NArith.\nImport ListNotations.\nFrom VMem Require Import StorageAccessor.\n'
+           'From VDrv Require Import MemCopy CopySeq.\nOpen Scope N_scope.\n')
 HDR_CPR = 'From Coq Require Import List NArith.\nImport ListNotations.\nFrom VCp Require Import CpRelay.\nOpen Scope N_scope.\n'
 HDR_HIST = ('From Coq Require Import List NArith.\nImport ListNotations.\nFrom VDrv Require Import MemCopy FlushHist.\n'
             'Open Scope N_scope.\n')
@@ -138,6 +140,64 @@ def mon_dma(case):
         for cid, c in delivered.items():
             if cid not in done:
                 return 'command %d never completed although every sub-request was answered' % cid
+    return None
+
+
+def mon_seq(case):
+    """Batches of copies drained once, accessor accesses and page moves: flat reference over the physical memory,
+    every access translated through the page table that is current when it executes."""
+    ps = 1 << 12
+    pt = {p['key']: p for p in case['pt']}
+    pmem = {}
+
+    def tr(va):
+        p = pt.get(va - va % ps)
+        return None if p is None else p['p'] + (va - p['v'])
+
+    def mapped(a, n):
+        return all(tr(x) is not None for x in ({a + i for i in range(0, n, ps)} | ({a + n - 1} if n else set())))
+
+    for k, e in enumerate(case['events']):
+        if e['e'] == 'batch':
+            if e.get('crash'):
+                if all(mapped(x['addr'], len(x['data'] or []) if not x['d2h'] else x['n']) for x in e['copies']):
+                    return 'event %d: a batch of %d copies panicked although every page is mapped' % (k, len(e['copies']))
+                return None
+            if e.get('stuck'):
+                return 'event %d: the batch of %d copies was not drained although every request was answered' % (k, len(e['copies']))
+            # queue order; the queues work on their own buffers, so the enqueue order is a valid serialization
+            for j, x in enumerate(e['copies']):
+                if x['d2h']:
+                    want = [pmem.get(tr(x['addr'] + i), 0) for i in range(x['n'])]
+                    if x['out'] != want:
+                        bad = next(i for i in range(max(len(want), len(x['out']))) if i >= len(want) or i >= len(x['out']) or want[i] != x['out'][i])
+                        return ('event %d: device-to-host copy %d of the batch (queue %d, %#x +%d, %d copy commands in flight together) '
+                                'returned bytes that its source range does not hold at its place in the queue order '
+                                '(first difference at offset %d)' % (k, j, x['q'], x['addr'], x['n'], e.get('inflight', 0), bad))
+                else:
+                    for i, b in enumerate(x['data']):
+                        pmem[tr(x['addr'] + i)] = b
+        elif e['e'] == 'remap':
+            if e.get('crash') or not e.get('page'):
+                return None                  # the allocator's business (C10)
+            pt[e['page']['key']] = e['page']
+        elif e['e'] == 'accw':
+            if e.get('crash'):
+                return None if not mapped(e['addr'], len(e['data'])) else 'event %d: accessor write panicked on mapped pages' % k
+            for i, b in enumerate(e['data']):
+                pmem[tr(e['addr'] + i)] = b
+        elif e['e'] == 'accr':
+            if e.get('crash'):
+                return None if not mapped(e['addr'], e['n']) else 'event %d: accessor read panicked on mapped pages' % k
+            want = [pmem.get(tr(e['addr'] + i), 0) for i in range(e['n'])]
+            if e['out'] != want:
+                return ('event %d: accessor read %#x +%d does not return the bytes of the frames the page table currently maps '
+                        '(stale translation?)' % (k, e['addr'], e['n']))
+    for w in case['dump']:
+        for i, b in enumerate(w['bytes']):
+            if b != pmem.get(w['pa'] + i, 0):
+                return 'storage byte %#x holds %d, the copies executed through the current page table leave %d there' % (
+                    w['pa'] + i, b, pmem.get(w['pa'] + i, 0))
     return None
 
 
@@ -323,7 +383,7 @@ def mon_drv(case):
 
 def strip(obj):
     """replay input: cases without observations"""
-    out = {'dma': [], 'drv': [], 'ovl': [], 'hist': [], 'cpr': []}
+    out = {'dma': [], 'drv': [], 'ovl': [], 'hist': [], 'cpr': [], 'seq': []}
     for c in obj.get('dma', []):
         out['dma'].append({'lg': c['lg'], 'max': c.get('max', 4), 'hostile': c.get('hostile', False), 'drained': c.get('drained', False),
                            'events': [{k: e[k] for k in ('e', 'copy', 'rsp') if k in e} for e in c['events']]})
@@ -335,6 +395,12 @@ def strip(obj):
                                     'order': o.get('order') or []} for o in c['ops']]})
     for c in obj.get('ovl', []):
         out['ovl'].append({k: c[k] for k in ('s1', 'e1', 's2', 'e2')})
+    for c in obj.get('seq', []):
+        out['seq'].append({'magic': c['magic'], 'ngpu': c['ngpu'], 'nq': c['nq'], 'sizes': c['sizes'],
+                           'events': [dict({k: e[k] for k in ('e', 'addr', 'gpu', 'data', 'n') if k in e},
+                                           **({'copies': [{k: x.get(k) for k in ('q', 'd2h', 'addr', 'data', 'n')}
+                                                          for x in e['copies']]} if e.get('copies') else {}))
+                                      for e in c['events']]})
     for c in obj.get('cpr', []):
         out['cpr'].append({'ncache': c['ncache'], 'cap': c.get('cap', 0), 'hostile': c.get('hostile', False),
                            'drained': c.get('drained', False),
@@ -345,7 +411,7 @@ def strip(obj):
     return out
 
 
-def run_impl(binary, cases=None, seed=1, n=(60, 40, 200, 60, 80)):
+def run_impl(binary, cases=None, seed=1, n=(60, 40, 200, 60, 80, 60)):
     tmp = os.path.join(vlib.BUILD, 'c11_%d.json' % os.getpid())
     scratch = os.path.join(vlib.BUILD, 'c11_scratch')
     os.makedirs(scratch, exist_ok=True)
@@ -355,7 +421,7 @@ def run_impl(binary, cases=None, seed=1, n=(60, 40, 200, 60, 80)):
         rc, log = vlib.run([binary, '--replay', inp, '--out', tmp], cwd=scratch, timeout=600)
         os.remove(inp)
     else:
-        rc, log = vlib.run([binary, '--seed', str(seed), '--ndma', str(n[0]), '--ndrv', str(n[1]), '--novl', str(n[2]), '--nhist', str(n[3]), '--ncpr', str(n[4]),
+        rc, log = vlib.run([binary, '--seed', str(seed), '--ndma', str(n[0]), '--ndrv', str(n[1]), '--novl', str(n[2]), '--nhist', str(n[3]), '--ncpr', str(n[4]), '--nseq', str(n[5]),
                             '--out', tmp], cwd=scratch, timeout=900)
     if rc != 0:
         return None, log
@@ -405,7 +471,7 @@ def platform_samples(only=None):
 
 
 def merge(a, b):
-    return {k: a.get(k, []) + b.get(k, []) for k in ('dma', 'drv', 'ovl', 'hist', 'cpr')}
+    return {k: a.get(k, []) + b.get(k, []) for k in ('dma', 'drv', 'ovl', 'hist', 'cpr', 'seq')}
 
 
 def dma_nontrivial(c):
@@ -450,7 +516,7 @@ def main(argv):
                        'the memory answers each sub-request at most once with the matching response type (hostile answers: model and '
                        'implementation agree on the panic, no property is claimed)']
     thorough = vlib.tier() == 'thorough'
-    n = (600, 300, 2000, 1500, 1500) if thorough else (50, 40, 300, 150, 150)
+    n = (600, 300, 2000, 1500, 1500, 1200) if thorough else (50, 40, 300, 150, 150, 120)
 
     replay_file = None
     if '--replay' in argv:
@@ -480,7 +546,7 @@ def main(argv):
             rep.violation({'broken': 'harness replay failed', 'log': log[-4000:]}, nofail=True)
             return rep.finish()
     else:
-        cases = {'dma': [], 'drv': [], 'ovl': [], 'hist': [], 'cpr': []}
+        cases = {'dma': [], 'drv': [], 'ovl': [], 'hist': [], 'cpr': [], 'seq': []}
         cdir = os.path.join(vlib.ROOT, 'corpus', PROP)
         for p in sorted(os.listdir(cdir)) if os.path.isdir(cdir) else []:
             got, log = run_impl(binary, cases=strip(json.load(open(os.path.join(cdir, p)))))
@@ -509,6 +575,10 @@ def main(argv):
         m = mon_hist(c)
         if m:
             bad.append(('hist', i, m))
+    for i, c in enumerate(cases['seq']):
+        m = mon_seq(c)
+        if m:
+            bad.append(('seq', i, m))
     for i, c in enumerate(cases['cpr']):
         m = mon_cpr(c)
         if m:
@@ -525,10 +595,12 @@ def main(argv):
 
     # ---- correspondence with the models
     from concurrent.futures import ThreadPoolExecutor
-    with ThreadPoolExecutor(max_workers=5) as ex:
+    with ThreadPoolExecutor(max_workers=6) as ex:
         f1 = ex.submit(vlib.eval_cases, PROP + 'dma', HDR_DMA, [c['coq'] for c in cases['dma']], 6)
         f2 = ex.submit(vlib.eval_cases, PROP + 'drv', HDR_DRV, [c['coq'] for c in cases['drv']], 4, 'dmismatches')
         f3 = ex.submit(vlib.eval_cases, PROP + 'ovl', HDR_DRV, [c['coq'] for c in cases['ovl']], 400, 'omismatches')
+        f6 = ex.submit(vlib.eval_cases, PROP + 'seq', HDR_SEQ, [c['coq'] for c in cases['seq']], 12, 'smismatches')
+        ok6, mism6, log6 = f6.result()
         f5 = ex.submit(vlib.eval_cases, PROP + 'cpr', HDR_CPR, [c['coq'] for c in cases['cpr']], 30, 'cmismatches')
         ok5, mism5, log5 = f5.result()
         f4 = ex.submit(vlib.eval_cases, PROP + 'hist', HDR_HIST, [c['coq'] for c in cases['hist']], 40, 'hmismatches')
@@ -541,6 +613,7 @@ def main(argv):
     rep.obligation('correspondence: %d memRangeOverlap samples evaluated by the model' % len(cases['ovl']), ok3 and not mism3)
     rep.obligation('correspondence: %d multi-queue flush histories evaluated by the model' % len(cases['hist']), ok4 and not mism4)
     rep.obligation('correspondence: %d command-processor relay histories evaluated by the model' % len(cases['cpr']), ok5 and not mism5)
+    rep.obligation('correspondence: %d batch / remap sequences evaluated by the model' % len(cases['seq']), ok6 and not mism6)
 
     plat = []
     if not replay_file or 'platform' in json.load(open(replay_file)):
@@ -549,6 +622,16 @@ def main(argv):
         rep.obligation('sampled platform runs verify their data: ' + ', '.join('%s=%s' % (n_, v) for n_, v, _ in plat),
                        all(v == 'ok' for _, v, _ in plat))
 
+    seq_after_remap = 0
+    for c in cases['seq']:
+        moved = set()
+        for e in c['events']:
+            if e['e'] == 'remap' and e.get('page'):
+                moved.add(e['page']['key'])
+            else:
+                rng_ = [(e.get('addr', 0), len(e.get('data') or []) or e.get('n', 0))] if e['e'] != 'batch' else \
+                       [(x['addr'], len(x.get('data') or []) or x.get('n', 0)) for x in e.get('copies', [])]
+                seq_after_remap += sum(1 for a, n_ in rng_ if any(k_ <= a + n_ - 1 and a < k_ + 4096 for k_ in moved))
     hist_inflight = 0
     for c in cases['hist']:
         fl = set()
@@ -566,7 +649,7 @@ def main(argv):
          {vlib.case_hash(s) for s, c in zip(stripped['drv'], cases['drv']) if drv_nontrivial(c)} | \
          {vlib.case_hash(s) for s, c in zip(stripped['hist'], cases['hist']) if hist_nontrivial(c)}
     rep.coverage.update({
-        'evaluations': len(cases['dma']) + len(cases['drv']) + len(cases['ovl']) + len(cases['hist']) + len(cases['cpr']),
+        'evaluations': len(cases['dma']) + len(cases['drv']) + len(cases['ovl']) + len(cases['hist']) + len(cases['cpr']) + len(cases['seq']),
         'distinct_nontrivial': len(nt),
         'rule': 'DMA: random port histories (60-300 events + drain; access unit 4..64 bytes; up to 14 commands, lengths around unit '
                 'boundaries; every 5th history hostile), non-trivial = at least two completions observed.  Driver: 1-4 GPUs, 1-4 buffers '
@@ -588,6 +671,11 @@ def main(argv):
         'driver_flushes': sum(1 for c in cases['drv'] for o in c['ops'] if o['flush']),
         'driver_panics': sum(1 for c in cases['drv'] for o in c['ops'] if o['crash']),
         'overlap_samples': len(cases['ovl']),
+        'sequences': len(cases['seq']),
+        'sequence_events': dict(collections.Counter(e['e'] for c in cases['seq'] for e in c['events'])),
+        'sequence_batches_with_copies_in_flight_together': sum(1 for c in cases['seq'] for e in c['events']
+                                                              if e['e'] == 'batch' and e.get('inflight', 0) >= 2),
+        'sequence_accesses_after_remap_of_their_page': seq_after_remap,
         'cp_relay_histories': len(cases['cpr']),
         'cp_relay_events': dict(collections.Counter(e['e'] for c in cases['cpr'] for e in c['events'])),
         'cp_relay_clones_observed': sum(1 for c in cases['cpr'] for e in c['events'] if e.get('clone')),
@@ -598,7 +686,7 @@ def main(argv):
         'flush_history_copies_while_kernel_in_flight': hist_inflight,
         'flush_history_flushes': sum(1 for c in cases['hist'] for e in c['events'] if e['flush']),
         'platform_samples': {n_: v for n_, v, _ in plat},
-        'model_mismatches': len(mism1) + len(mism2) + len(mism3) + len(mism4) + len(mism5), 'monitor_failures': len(bad),
+        'model_mismatches': len(mism1) + len(mism2) + len(mism3) + len(mism4) + len(mism5) + len(mism6), 'monitor_failures': len(bad),
     })
     rep.samples = [{'kind': 'dma', 'lg': c['lg'], 'events': [e['e'] for e in c['events'][:30]]} for c in cases['dma'][:1]] + \
                   [{'kind': 'drv', 'lg': c['lg'], 'magic': c['magic'], 'ngpu': c['ngpu'],
@@ -609,12 +697,12 @@ def main(argv):
         n_, v, l = platbad[0]
         args = [a for nm, pk, a in PLATFORM_SAMPLES if nm == n_][0]
         msg = 'platform sample %s %s: %s' % (n_, ' '.join(args), 'did not verify / did not finish' if v == 'fail' else 'does not build')
-        rep.violation({'property': PROP, 'what': msg, 'platform': n_, 'log': l, 'cases': {'dma': [], 'drv': [], 'ovl': [], 'hist': [], 'cpr': []},
+        rep.violation({'property': PROP, 'what': msg, 'platform': n_, 'log': l, 'cases': {'dma': [], 'drv': [], 'ovl': [], 'hist': [], 'cpr': [], 'seq': []},
                        'replay_cmd': './check C11 --replay <this file>'}, text=msg, nofail=(v != 'fail'))
     if bad:
         kind, i, msg = bad[0]
         c = cases[kind][i]
-        one = {'dma': [], 'drv': [], 'ovl': [], 'hist': [], 'cpr': []}
+        one = {'dma': [], 'drv': [], 'ovl': [], 'hist': [], 'cpr': [], 'seq': []}
         if kind == 'dma':
             def fails(evs):
                 cc = dict(c); cc['events'] = evs; cc['drained'] = False
@@ -635,6 +723,17 @@ def main(argv):
             out, _ = run_impl(binary, cases=strip({'drv': [cc]}))
             if out and mon_drv(out['drv'][0])[0]:
                 c, msg = out['drv'][0], mon_drv(out['drv'][0])[0]
+        elif kind == 'seq':
+            def fails(evs):
+                cc = dict(c); cc['events'] = evs
+                out, _ = run_impl(binary, cases=strip({'seq': [cc]}))
+                m2 = mon_seq(out['seq'][0]) if out else None
+                return bool(m2) and m2.split(':')[-1][:20] == msg.split(':')[-1][:20]
+            small = vlib.ddmin(c['events'], fails, budget=60)
+            cc = dict(c); cc['events'] = small
+            out, _ = run_impl(binary, cases=strip({'seq': [cc]}))
+            if out and mon_seq(out['seq'][0]):
+                c, msg = out['seq'][0], mon_seq(out['seq'][0])
         elif kind == 'cpr':
             def fails(evs):
                 cc = dict(c); cc['events'] = evs; cc['drained'] = False
@@ -661,12 +760,15 @@ def main(argv):
         one[kind] = [c]
         rep.violation({'property': PROP, 'what': msg, 'kind': kind, 'cases': one,
                        'replay_cmd': './check C11 --replay <this file>'}, text=msg)
-    elif mism1 or mism2 or mism3 or mism4 or mism5 or not (ok1 and ok2 and ok3 and ok4 and ok5):
+    elif mism1 or mism2 or mism3 or mism4 or mism5 or mism6 or not (ok1 and ok2 and ok3 and ok4 and ok5 and ok6):
         if mism1 or not ok1:
             kind, (i, k), clog, what = 'dma', (mism1[0] if mism1 else (0, 0)), log1, 'coq/cp/Dma.v and amd/timing/cp/dma.go'
         elif mism2 or not ok2:
             kind, (i, k), clog, what = 'drv', (mism2[0] if mism2 else (0, 0)), log2, \
                 'coq/drv/MemCopy.v, coq/mem/StorageAccessor.v and amd/driver/memorycopy*.go, amd/emu/storageaccessor.go'
+        elif mism6 or not ok6:
+            kind, (i, k), clog, what = 'seq', (mism6[0] if mism6 else (0, 0)), log6, \
+                'coq/drv/CopySeq.v and the copy paths / storage accessor under batches and page moves'
         elif mism5 or not ok5:
             kind, (i, k), clog, what = 'cpr', (mism5[0] if mism5 else (0, 0)), log5, \
                 'coq/cp/CpRelay.v and amd/timing/cp (cpMiddleware.go, ctrlMiddleware.go, commandprocessor.go)'
@@ -678,13 +780,13 @@ def main(argv):
         c = cases[kind][i] if cases[kind] else None
         if c:
             c = {kk: v for kk, v in c.items() if kk not in ('coq', 'dump')}
-        one = {'dma': [], 'drv': [], 'ovl': [], 'hist': [], 'cpr': []}
+        one = {'dma': [], 'drv': [], 'ovl': [], 'hist': [], 'cpr': [], 'seq': []}
         one[kind] = [c] if c else []
         rep.violation({'property': PROP, 'broken': 'correspondence between %s: observation %d of case %d differs; theorems of '
                        'props/C11.v no longer speak about this code' % (what, k, i),
                        'cases': one, 'first_diverging_observation': k, 'log': clog[-2000:]}, nofail=True,
                       text='model/implementation mismatch (%s) at case %d observation %d; no property violation found on %d cases'
-                      % (kind, i, k, len(cases['dma']) + len(cases['drv']) + len(cases['ovl']) + len(cases['hist']) + len(cases['cpr'])))
+                      % (kind, i, k, len(cases['dma']) + len(cases['drv']) + len(cases['ovl']) + len(cases['hist']) + len(cases['cpr']) + len(cases['seq'])))
     return rep.finish()
 
 
